@@ -102,22 +102,27 @@ func (e editor) leaf(from *Selection, to *Selection, m meta.Leafable, new bool, 
 }
 
 func (e editor) clearOnDifferentChoiceCase(existing *Selection, want meta.Meta) error {
-	wantCase, valid := want.Parent().(*meta.ChoiceCase)
-	if !valid {
-		return nil
+	// a case may itself sit in a case of an outer choice, every enclosing choice is checked
+	for {
+		wantCase, valid := want.Parent().(*meta.ChoiceCase)
+		if !valid {
+			return nil
+		}
+		choice := wantCase.Parent().(*meta.Choice)
+		existingCase, err := existing.Node.Choose(existing, choice)
+		if err != nil {
+			// we're eating the error here because destination may not implement choose because
+			// it's a write-only implementation. clearing the old value is a courtesy anyway so
+			// proceed with edit as planned.
+			return nil
+		}
+		if existingCase != wantCase && existingCase != nil {
+			if err := e.clearChoiceCase(existing, existingCase); err != nil {
+				return err
+			}
+		}
+		want = choice
 	}
-	choice := wantCase.Parent().(*meta.Choice)
-	existingCase, err := existing.Node.Choose(existing, choice)
-	if err != nil {
-		// we're eating the error here because destination may not implement choose because
-		// it's a write-only implementation. clearing the old value is a courtesy anyway so
-		// proceed with edit as planned.
-		return nil
-	}
-	if existingCase == wantCase || existingCase == nil {
-		return nil
-	}
-	return e.clearChoiceCase(existing, existingCase)
 }
 
 func (e editor) clearChoiceCase(sel *Selection, c *meta.ChoiceCase) error {
